@@ -717,15 +717,17 @@ class _visco_cut:
 
 
 def _visco_update_obligation(h, mod, nbr, label, active):
-    """one query set per ACTIVE branch: its trial strain E is symbolic, the other branches' trial strains are zero (the energy is a sum over
-    branches: a branch reading the wrong modulus / relaxation time shows up when it is the active one); the second derivative does not depend on
-    the strains and always carries ALL branches"""
+    """one query set per ACTIVE branch: its trial strain E and modulus G are symbolic, the other branches have zero trial strain and zero modulus (the
+    energy is a Python sum over branches: a branch reading the wrong modulus / relaxation time, or losing the strain dependence of its viscous
+    increment, shows up when it is the active one). With all three moduli symbolic at once the diagonal second-derivative entries were unknown @40 s."""
     def dev(A):
         t3 = c12._third(v_sum([A[0][0], A[1][1], A[2][2]]))
         return [[v_sub(A[i][j], t3) if i == j else A[i][j] for j in range(3)] for i in range(3)]
 
     def fn(E, dE, dt, Gs, taus):
-        props = jnp.concatenate([jnp.array([1.0, 1.0]) + 0.0 * dt, jnp.stack([x for pair in zip(Gs, taus) for x in pair])])
+        # only the active branch carries a (symbolic) modulus; the relaxation times of all branches stay symbolic
+        Gz = [Gs[n] if n == active else 0.0 * Gs[n] for n in range(nbr)]
+        props = jnp.concatenate([jnp.array([1.0, 1.0]) + 0.0 * dt, jnp.stack([x for pair in zip(Gz, taus) for x in pair])])
         state = jnp.zeros(9 * nbr)
         Es = [E if n == active else jnp.zeros((3, 3)) for n in range(nbr)]
 
@@ -751,14 +753,14 @@ def _visco_update_obligation(h, mod, nbr, label, active):
             den = v_add(taus[n], dt)
             return (Gs[n] * taus[n] / den) if sym.num(den) and sym.num(Gs[n]) and sym.num(taus[n]) else sym.toz(v_mul(Gs[n], taus[n])) / sym.toz(den)
         ka = eff(active)
-        ks = v_sum([eff(n) for n in range(nbr)])
+        ks = ka          # the other branches have modulus 0 in this case
         return asm, [Eq(s0(o[0]), v_mul(ka, v_dot(c12.fl(D), c12.fl(D))), name='value_is_G_over_1_plus_dt_over_tau_dev_ddot_dev')] + \
             [Eq(c12.M(o[1])[a][b], v_mul(v_mul(2.0, ka), D[a][b]), name='gradient[%d%d]' % (a, b)) for a in range(3) for b in range(3)] + \
-            [Eq(c12.M(o[2])[a][b], v_mul(v_mul(2.0, ks), dD[a][b]), name='second_derivative_is_sum_2Gn_over_1_plus_dt_over_tau_dev_dE[%d%d]' % (a, b)) for a in range(3) for b in range(3)]
-    c.prove(tag, spec, order=('nlsat', 'core'), denoms=True, cap=60)
+            [Eq(c12.M(o[2])[a][b], v_mul(v_mul(2.0, ks), dD[a][b]), name='second_derivative_is_2G_over_1_plus_dt_over_tau_dev_dE[%d%d]' % (a, b)) for a in range(3) for b in range(3)]
+    c.prove(tag, spec, order=('core', 'core', 'nlsat'), denoms=True, cap=180)      # the quadratic value atom needs ~14 s of the core solver
 
 
-@obligation(P, 'O8b.visco_neq_update_second_derivative', cap=400)
+@obligation(P, 'O8b.visco_neq_update_second_derivative', cap=900)
 def o8b_visco(h):
     """the non-equilibrium part of the REAL _energy_density of MultiBranchHyperViscoelastic (3 branches) and HyperViscoelastic (1 branch) WITH the state
     update inside, as a function of the trial elastic log strain(s): value sum_n G_n/(1+dt/tau_n) |dev E_n|^2, gradient and second derivative
@@ -768,7 +770,7 @@ def o8b_visco(h):
     h.encoded(MB._energy_density, MB._compute_state_increment, MB._neq_strain_energy, MB._dissipation_potential, MB._return_Gneq_id_for_branch,
               HV._energy_density, HV._compute_state_increment, HV._neq_strain_energy, HV._dissipation_potential)
     h.bounds('one case per active branch: its trial elastic strain E all real 3x3, the other branches at zero trial strain (the energy is additive over branches); '
-             'direction dE: all real 3x3; dt > 0, tau_n > 0, G_n: all reals (symbolic); the second derivative carries all branches in every case')
+             'direction dE: all real 3x3; dt > 0, tau_n > 0 (all branches) and the active G_n: all reals (symbolic), the other moduli 0; additivity over branches is the source\'s Python sum')
     h.outside('the logarithmic strain itself (TensorMath.log_sqrt_symm of the trial elastic deformation) and the equilibrium energy: cut (see assumptions)', *NA)
     h.assume_note('cut: _compute_elastic_logarithmic_strain(dispGrad, state_n) is replaced by E_n + dispGrad (harness inputs; the differentiation variable enters '
                   'additively, so derivatives w.r.t. it are derivatives w.r.t. the trial strain) and _eq_strain_energy by 0; module attributes patched at trace time, '
